@@ -720,6 +720,8 @@ func (p *Prog) axiomTerm(a *Axiom) (Term, map[string]bool, map[string]bool, bool
 	return t, fx.specUsed, fx.langsUsed, fx.useSeq
 }
 
+const seqPreludeEnd = "(bs_val b o2 l2)))))\n"
+
 const seqPrelude = `(declare-sort BSeq 0)
 (declare-const bs_empty BSeq)
 (declare-fun bs_unit (Int) BSeq)
@@ -810,7 +812,24 @@ func (fx *FuncCtx) scriptForMode(ob *Obligation, prune bool) string {
 	fmt.Fprintf(&b, "(assert %s)\n", ob.PC)
 	fmt.Fprintf(&b, "(assert (not %s))\n", ob.Goal)
 	b.WriteString("(check-sat)\n(get-model)\n")
-	return b.String()
+	out := b.String()
+	// when nothing concatenates sequences, the concatenation/splitting axioms of the prelude are
+	// useless and only feed the instantiation engine: leave them out (fewer hypotheses: sound)
+	body := out
+	if k := strings.Index(out, seqPreludeEnd); k >= 0 {
+		body = out[k+len(seqPreludeEnd):]
+	}
+	if !strings.Contains(body, "bs_cat") && !strings.Contains(body, "bs_unit") {
+		var kept []string
+		for _, l := range strings.Split(out, "\n") {
+			if strings.HasPrefix(l, "(assert (forall") && (strings.Contains(l, "bs_cat") || strings.Contains(l, "bs_unit")) && !strings.Contains(l, "inlang_") {
+				continue
+			}
+			kept = append(kept, l)
+		}
+		out = strings.Join(kept, "\n")
+	}
+	return out
 }
 
 func mentionsAny(t string, markers []string) bool {
